@@ -234,3 +234,12 @@ def c08_unsized_constant_operand(site, w):
     if not any(t in ("float", "integer", "complex") for t in ots):
         return False
     return "_float_value" in w.get("node", "") or "_integer_value" in w.get("node", "") or "_complex_value" in w.get("node", "")
+
+
+def c11_fma_product_underflow(site, w):
+    """emulated fma when the exact product x*y has bits below the smallest subnormal (tiny |x*y|): the Dekker partial products are rounded in the
+    subnormal range, each by up to half a unit, so the result can be 2-3 ULP off (the docstring lists 'underflow occurred in fma arithmetics' as a
+    cause of inexactness).  Only small errors are attributed to this mechanism."""
+    if not site.endswith(":product_bits_below_smallest_subnormal") or not w.get("product_bits_below_smallest_subnormal"):
+        return False
+    return 1 < w.get("ulps", 10**9) <= 4
